@@ -343,7 +343,7 @@ func (cmd *mainCmd) Run(args []string) error {
 			cmd.printComments(sourcePath.Provided, comments)
 			_, err = cmd.Stdout.Write(bs)
 		default:
-			err = os.WriteFile(filename, bs, 0o644)
+			err = writeFileAtomic(filename, bs)
 		}
 		if err != nil {
 			log.Printf("%s: failed: %v", filename, err)
@@ -355,6 +355,37 @@ func (cmd *mainCmd) Run(args []string) error {
 
 	errors = append(errors, patchRunner.errors...)
 	return multierr.Combine(errors...)
+}
+
+// writeFileAtomic replaces the contents of the file at path with data such
+// that the file always holds either its old contents or all of data, even
+// if the write fails or is interrupted halfway.
+func writeFileAtomic(path string, data []byte) (err error) {
+	mode := os.FileMode(0o644)
+	if info, statErr := os.Stat(path); statErr == nil {
+		mode = info.Mode().Perm()
+	}
+
+	tmp, err := os.CreateTemp(filepath.Dir(path), "."+filepath.Base(path)+".*.tmp")
+	if err != nil {
+		return err
+	}
+	defer func() {
+		if err != nil {
+			err = multierr.Append(err, os.Remove(tmp.Name()))
+		}
+	}()
+
+	if _, err := tmp.Write(data); err != nil {
+		return multierr.Append(err, tmp.Close())
+	}
+	if err := tmp.Chmod(mode); err != nil {
+		return multierr.Append(err, tmp.Close())
+	}
+	if err := tmp.Close(); err != nil {
+		return err
+	}
+	return os.Rename(tmp.Name(), path)
 }
 
 func checkGeneratedCode(f *ast.File) bool {
